@@ -97,7 +97,10 @@ def _sets_column(sql, column):
 
 
 def _describe(case, res, trace):
-    lines = ['%s attribute, object %s, initial value %r' % (case['kind'], case['origin'], res['doc0'])]
+    docs = res['docs0']
+    lines = ['%s attribute %s, object(s) %s, initial value %r' % (case['kind'], res['names'][0], case['origin'], docs[0])]
+    if len(docs) > 1:
+        lines.append('peer slot %s, initial value %r' % (res['names'][1], docs[1]))
     for k, line in enumerate(res['src']):
         lines.append('  %d: %s%s' % (k + 1, line, '    -> status %s' % trace[k] if k < len(trace) else ''))
     return '\n'.join(lines)
@@ -107,8 +110,13 @@ def execute(case, res):
     """run the resolved program against Pony; returns (verdict, message): verdict in ok/violation/rejected"""
     from pony.orm import db_session, flush, commit
     db, E, log, ids = _env()
-    pk = next(ids)
-    attr = res['attr']
+    specs = res['slots']                       # [(object key, attribute)]
+    names = res['names']
+    okeys = sorted(set(o for o, _ in specs))   # 'a' or 'a', 'b'
+    pks = {o: next(ids) for o in okeys}
+    init = {o: {} for o in okeys}
+    for (o, a), d in zip(specs, res['docs0']):
+        init[o][a] = d
     steps = res['steps']
     origin = case['origin']
     readonly = case['readonly']
@@ -116,7 +124,8 @@ def execute(case, res):
         raise AssertionError('harness: read-only program changed the reference')
     if origin == 'loaded':
         with db_session:
-            E(id=pk, **{attr: M.fresh(res['doc0'])})
+            for o in okeys:
+                E(id=pks[o], **M.fresh(init[o]))
     del log[:]
     st = {'pos': 0, 'snap': 0}
     trace = []
@@ -124,37 +133,48 @@ def execute(case, res):
     def violation(text):
         return _Abort('violation', '%s\n%s' % (_describe(case, res, trace), text))
 
+    def compare(objs, expect, when):
+        for k, (o, a) in enumerate(specs):
+            got = M.plain(getattr(objs[o], a))
+            if not _same(got, expect[k]):
+                raise violation('%s a new db_session reads %s = %r, the plain Python copy is %r'
+                                % (when, names[k], got, expect[k]))
+
     def segment(first):
         with db_session:
-            if first and origin != 'loaded':
-                obj = E(id=pk, **{attr: M.fresh(res['doc0'])})
-                if origin == 'flushed': flush()
-                want = 'inserted' if origin == 'flushed' else 'created'
-            else:
-                obj = E[pk]
-                want = 'loaded'
-            if obj._status_ != want:
-                raise AssertionError('harness: object status %r, expected %r' % (obj._status_, want))
+            objs = {}
+            for o in okeys:
+                if first and origin != 'loaded':
+                    objs[o] = E(id=pks[o], **M.fresh(init[o]))
+                    want = 'inserted' if origin == 'flushed' else 'created'
+                else:
+                    objs[o] = E[pks[o]]
+                    want = 'loaded'
+            if first and origin == 'flushed': flush()
+            for o in okeys:
+                if objs[o]._status_ != want:
+                    raise AssertionError('harness: object status %r, expected %r' % (objs[o]._status_, want))
             if not first:
                 expect = res['snapshots'][st['snap']]
                 st['snap'] += 1
-                got = M.plain(getattr(obj, attr))
-                if not _same(got, expect):
-                    raise violation('after the commit at step %d a new db_session reads %r, the plain Python copy is %r'
-                                    % (st['pos'], got, expect))
-            env = M.Env(obj, attr)
+                compare(objs, expect, 'after the commit at step %d' % st['pos'])
+            env = M.Env([(objs[o], a) for o, a in specs])
+
+            def statuses():
+                return '/'.join(objs[o]._status_ for o in okeys)
             while st['pos'] < len(steps):
                 step = steps[st['pos']]
                 st['pos'] += 1
                 do = step['do']
                 if do == 'reload':
-                    trace.append(obj._status_)
+                    trace.append(statuses())
                     return False
-                before = obj._status_
+                before = {o: objs[o]._status_ for o in okeys}
+                acted = 'a' if do == 'touch' else specs[step.get('on', 0)][0]
                 try:
                     if do == 'flush': flush()
                     elif do == 'commit': commit()
-                    elif do == 'touch': obj.n = step['n']
+                    elif do == 'touch': objs['a'].n = step['n']
                     else: M.apply_step(step, env)
                 except Exception as e:
                     trace.append('%s: %s' % (type(e).__name__, e))
@@ -163,9 +183,15 @@ def execute(case, res):
                         raise _Abort('rejected', str(e))
                     raise violation('step %d raised %s: %s (the same step succeeds on the plain copy)'
                                     % (st['pos'], type(e).__name__, e))
-                trace.append(obj._status_)
-                if do == 'read' and obj._status_ == 'modified' and before != 'modified':
-                    raise violation('read step %d changed obj._status_ from %r to %r' % (st['pos'], before, obj._status_))
+                trace.append(statuses())
+                if do == 'read' and objs[acted]._status_ == 'modified' and before[acted] != 'modified':
+                    raise violation('read step %d changed the status of the object it reads from %r to %r'
+                                    % (st['pos'], before[acted], objs[acted]._status_))
+                if do not in ('flush', 'commit'):
+                    for o in okeys:     # an object whose value is not changed by the step (at most read) must not get marked
+                        if o != acted and objs[o]._status_ == 'modified' and before[o] != 'modified':
+                            raise violation('step %d acts on object %r but changed the status of object %r from %r to %r'
+                                            % (st['pos'], acted, o, before[o], objs[o]._status_))
             return True
 
     try:
@@ -173,14 +199,12 @@ def execute(case, res):
         while not segment(first):
             first = False
         with db_session:
-            got = M.plain(getattr(E[pk], attr))
-        if not _same(got, res['final']):
-            raise violation('after commit a new db_session reads %r, the plain Python copy is %r' % (got, res['final']))
+            compare({o: E[pks[o]] for o in okeys}, res['final'], 'after commit')
         if readonly:
-            column = attr
-            bad = [s for s in log if _sets_column(s, column)]
-            if bad:
-                raise violation('read-only program emitted %r' % (bad[0],))
+            for o, a in specs:
+                bad = [s for s in log if _sets_column(s, a)]
+                if bad:
+                    raise violation('read-only program emitted %r' % (bad[0],))
     except _Abort as a:
         return a.verdict, a.message
     return 'ok', None
@@ -218,11 +242,12 @@ def _classes(case, res):
 def evaluate(ctx, case, part):
     res = M.resolve(case)
     verdict, msg = execute(case, res)
-    key = runner.chash({'k': case['kind'], 'o': case['origin'], 'd': res['doc0'], 's': res['steps']})
+    key = runner.chash({'k': case['kind'], 'o': case['origin'], 'd': res['docs0'], 'n': res['names'], 's': res['steps']})
     nt = _nontrivial(case, res)
     sample = None
     if nt and ctx.evaluations % 211 == 5:      # a spread of real cases rather than the first few grid cells
-        sample = {'kind': case['kind'], 'origin': case['origin'], 'initial': res['doc0'], 'program': res['src'],
+        sample = {'kind': case['kind'], 'origin': case['origin'], 'slots': res['names'], 'initial': res['docs0'],
+                  'program': res['src'],
                   'expected': res['final'], 'verdict': verdict, 'part': part}
     ctx.case(key=key, nontrivial=nt, classes=_classes(case, res) + ['part:' + part], sample=sample)
     ctx.count('steps', len(res['steps']))
